@@ -143,3 +143,21 @@ pub unsafe fn m128_cmple_ps(a: __m128, b_: __m128) -> __m128 {
     while i < 4 { r[i] = if a[i] <= b_[i] { 0xFFFF_FFFF } else { 0 }; i += 1; }
     std::mem::transmute(r)
 }
+
+/// VGATHERDPS (all lanes enabled): r[i] = *(base + idx[i] * SCALE bytes); every lane is a checked read
+pub unsafe fn m256_i32gather_ps<const SCALE: i32>(p: *const f32, idx: __m256i) -> __m256 {
+    let ix: [i32; 8] = std::mem::transmute(idx);
+    let mut r = [0f32; 8];
+    let mut i = 0;
+    while i < 8 { r[i] = *((p as *const u8).offset(ix[i] as isize * SCALE as isize) as *const f32); i += 1; }
+    std::mem::transmute(r)
+}
+/// VPMOVZXBD: zero-extend the low 8 bytes to 8 x i32 (not used by the library today; modelled so that a kernel rewritten with it
+/// can still be checked instead of stopping at "simd_cast is not supported")
+pub unsafe fn m256_cvtepu8_epi32(a: __m128i) -> __m256i {
+    let x = b128(a);
+    let mut r = [0i32; 8];
+    let mut i = 0;
+    while i < 8 { r[i] = x[i] as i32; i += 1; }
+    std::mem::transmute(r)
+}
